@@ -74,12 +74,13 @@ package api
 //@   loop 0: invariant forall k int :: self.i <= k && k < pos ==> isSpace(buf[k])
 //@   loop 0: decreases len(buf) - pos
 
-// ---- StreamDecoder (C17): the buffer always holds exactly the not yet consumed
-// bytes the Reader has delivered, in order: no byte is lost, duplicated or
-// reordered however the Reader chunks them.
+// ---- StreamDecoder (C17): the buffer always holds exactly the most recent
+// len(buf) bytes the Reader has delivered, in order (sdSync): no byte is lost,
+// duplicated or reordered however the Reader chunks them; bytes leave the
+// buffer only at its front (consumed values and white space).
 //@ axiom bufpool_elems: forall x any :: sync.poolElem(addr(bufPool), x) ==> (x != nil && dyntype(x) == typeid(ByteSlice) && len(cast(ByteSlice, x)) == 0 && cap(cast(ByteSlice, x)) > 0)
-//@ pure func sdOK(s *StreamDecoder) bool = s != nil && 0 <= s.scanp && s.scanp <= len(s.buf) && s.scanned >= 0 && len(s.buf) <= 140737488355328
-//@ pure func sdSync(s *StreamDecoder) bool = int(s.scanned) + len(s.buf) == $rpos && (forall j int :: int(s.scanned) <= j && j < int(s.scanned) + len(s.buf) ==> s.buf[j - int(s.scanned)] == $rin[j])
+//@ pure func sdOK(s *StreamDecoder) bool = s != nil && 0 <= s.scanp && s.scanp <= len(s.buf) && s.scanned >= 0 && len(s.buf) <= 140737488355328 && int(s.scanned) + len(s.buf) <= $rpos
+//@ pure func sdSync(s *StreamDecoder) bool = len(s.buf) <= $rpos && (forall j int :: $rpos - len(s.buf) <= j && j < $rpos ==> s.buf[j - ($rpos - len(s.buf))] == $rin[j])
 
 //@ func (*StreamDecoder).scan props C17
 //@   requires sdOK(self)
@@ -112,9 +113,47 @@ package api
 //@ func (*StreamDecoder).refill props C17
 //@   requires sdOK(self) && sdSync(self) && self.r != nil && minLeftBufferShift == 1 && $rpos >= 0 && $rpos <= 4611686018427387904
 //@   modifies self.scanned, self.buf, self.scanp, self.buf[_], $rpos
-//@   ensures sdOK(self) && self.scanp == 0 && $rpos >= old($rpos)
+//@   ensures sdOK(self) && self.scanp == 0 && $rpos >= old($rpos) && $rpos <= 4611686018427387904
 //@   ensures int(self.scanned) == old(int(self.scanned) + self.scanp)
-//@   ensures int(self.scanned) + len(self.buf) == $rpos
 //@   ensures sdSync(self)
 //@   ensures len(self.buf) >= old(len(self.buf) - self.scanp)
 //@   ensures self.err == old(self.err) && self.r == old(self.r)
+//@   ensures (base(self.buf) == old(base(self.buf)) || fresh(self.buf))
+
+//@ pure func sdReady(s *StreamDecoder) bool = sdOK(s) && sdSync(s) && s.r != nil && minLeftBufferShift == 1 && $rpos >= 0 && $rpos <= 4611686018427387904
+
+// peek: next non-space byte of the stream (reading more as needed), or the
+// Reader's error once everything buffered is white space.  InputOffset never moves backwards.
+//@ func (*StreamDecoder).peek props C17
+//@   requires sdReady(self)
+//@   modifies self.scanned, self.buf, self.scanp, self.buf[_], $rpos, self.err
+//@   ensures r1 == nil ==> (sdReady(self) && self.err == old(self.err) && self.scanp < len(self.buf) && r0 == self.buf[self.scanp] && !isSpace(r0))
+//@   ensures r1 != nil ==> (self.err == r1 && self.buf == nil)
+//@   ensures r1 == nil ==> (base(self.buf) == old(base(self.buf)) || fresh(self.buf))
+//@   ensures r1 == nil ==> int(self.scanned) + self.scanp >= old(int(self.scanned) + self.scanp)
+//@   ensures self.r == old(self.r)
+//@   loop 0: invariant sdOK(self) && self.r != nil && minLeftBufferShift == 1 && $rpos >= 0 && $rpos <= 4611686018427387904
+//@   loop 0: invariant sdSync(self)
+//@   loop 0: invariant self.err == old(self.err) && self.r == old(self.r) && int(self.scanned) + self.scanp >= old(int(self.scanned) + self.scanp)
+//@   loop 0: invariant (base(self.buf) == old(base(self.buf)) || fresh(self.buf))
+//@   loop 0: modifies self.scanned, self.buf, self.scanp, self.buf[_], $rpos, self.err
+
+//@ func (*StreamDecoder).More props C17
+//@   requires sdReady(self)
+//@   modifies self.scanned, self.buf, self.scanp, self.buf[_], $rpos, self.err
+//@   ensures old(self.err) != nil ==> (!result && self.err == old(self.err))
+//@   ensures result ==> (sdReady(self) && self.err == nil && self.scanp < len(self.buf) && !isSpace(self.buf[self.scanp]) && self.buf[self.scanp] != ']' && self.buf[self.scanp] != '}')
+//@   ensures result ==> int(self.scanned) + self.scanp >= old(int(self.scanned) + self.scanp)
+//@   ensures result ==> (base(self.buf) == old(base(self.buf)) || fresh(self.buf))
+//@   ensures self.r == old(self.r)
+
+// readMore: appends at least one more non-space... byte run to the buffer (true) or records the Reader's error (false).
+//@ func (*StreamDecoder).readMore props C17
+//@   requires sdReady(self)
+//@   modifies self.buf, self.scanp, self.buf[_], $rpos, self.err
+//@   ensures old(self.err) != nil ==> (!result && self.err == old(self.err))
+//@   ensures result ==> (sdReady(self) && self.err == nil && self.scanned == old(self.scanned) && len(self.buf) > old(len(self.buf)) && (base(self.buf) == old(base(self.buf)) || fresh(self.buf)))
+//@   ensures !result ==> self.err != nil
+//@   ensures self.r == old(self.r)
+//@   loop 0: invariant sdReady(self) && self.err == nil && self.r == old(self.r) && self.scanned == old(self.scanned) && len(self.buf) >= old(len(self.buf)) && err == nil && (base(self.buf) == old(base(self.buf)) || fresh(self.buf))
+//@   loop 0: modifies self.buf, self.scanp, self.buf[_], $rpos, self.err
